@@ -7,6 +7,7 @@ import (
 	"math/rand"
 	"runtime/debug"
 	"strings"
+	"verif/harness/vk"
 )
 
 func limbs32(u uint32) []int { return []int{int(u >> 16), int(u & 0xffff)} }
@@ -99,3 +100,62 @@ func newRand(seed int64, salt string) *rand.Rand {
 }
 
 func mustJSON(v any) string { b, _ := json.Marshal(v); return string(b) }
+
+// theEnv is the run's environment (set by main) for code that has no *vk.Env at hand.
+var theEnv *vk.Env
+
+// panicOrigin walks the stack of a recovered panic from the panicking frame outwards and says whose frame comes first:
+// the library's (standard-library frames it called are skipped) or the harness's own.
+func panicOrigin(stack string) (library bool, frame string) {
+	lines := strings.Split(stack, "\n")
+	i := 0
+	for ; i < len(lines); i++ {
+		if strings.HasPrefix(lines[i], "panic(") {
+			break
+		}
+	}
+	for ; i < len(lines); i++ {
+		l := lines[i]
+		if strings.HasPrefix(l, "\t") || l == "" {
+			continue
+		}
+		if j := strings.LastIndex(l, "("); j > 0 {
+			l = l[:j]
+		}
+		if strings.HasPrefix(l, "github.com/Tnze/go-mc/") {
+			return true, strings.TrimPrefix(l, "github.com/Tnze/go-mc/")
+		}
+		if strings.HasPrefix(l, "main.") || strings.HasPrefix(l, "verif/harness/") {
+			return false, l
+		}
+	}
+	return false, "?"
+}
+
+// guard is deferred (after the goroutine's wg.Done / close defers, so that it runs before them) in driver goroutines that
+// call the library outside catch: a panic of the library there would otherwise end the whole driver with the Go runtime's
+// exit status 2 and leave no verdict. The panic is what the real code did in the scenario the goroutine was running: it is
+// reported against the property and the run ends at once (the scenario's other goroutines may be waiting for this one).
+func guard(leg string) {
+	r := recover()
+	if r == nil {
+		return
+	}
+	stack := string(debug.Stack())
+	lib, frame := panicOrigin(stack)
+	env := theEnv
+	if env == nil {
+		panic(r)
+	}
+	if !lib {
+		env.Infra("the harness panicked in a goroutine of %s: %v @ %s\n%s", leg, r, frame, vkTrunc(stack, 3000))
+		finish(env)
+	}
+	if strings.HasPrefix(env.ID, "X") {
+		env.Note("spec-extension %s finding: LibraryPanic - the library panicked in a goroutine of %s at %s: %v", env.ID, leg, frame, r)
+		finish(env)
+	}
+	env.Report(fmt.Sprintf("the library panicked in a goroutine of %s (first library frame %s)", leg, frame),
+		fmt.Sprintf("%v\n%s", r, vkTrunc(stack, 3000)), map[string]any{"kind": "rerun", "seed": env.Seed, "tier": env.Tier})
+	finish(env)
+}
